@@ -1,1 +1,240 @@
-(* placeholder: to be written *)
+(** Executable model of dex/price-discovery.
+
+    Mirrors, function by function and guard by guard:
+      dex/price-discovery/src/phase.rs         (get_current_phase, require_*_allowed, get_penalty_percentage)
+      dex/price-discovery/src/lib.rs           (init, deposit, withdraw, redeem, compute_bought_tokens,
+                                                calculate_price, increase_balance, decrease_balance)
+      dex/price-discovery/src/redeem_token.rs  (mint_and_send_redeem_token, burn_redeem_token,
+                                                burn_redeem_token_without_supply_decrease)
+      dex/price-discovery/src/common_storage.rs (launched_token_balance, accepted_token_balance)
+    The locking SC (common/modules/locking_module -> simple-lock lockTokens) forwards the bought
+    tokens 1:1 to the caller, locked or not depending on the epoch; for the price-discovery contract
+    this is an outgoing transfer of the bought amount, which is all the model records.
+    No proofs in this file: the model must keep running when a proof breaks. *)
+From MX Require Import Base.Prelude Gen.Params.
+
+(** Token codes of payments: 1 = launched token, 2 = accepted token, anything else = foreign. *)
+Definition TOK_L : Z := 1.
+Definition TOK_A : Z := 2.
+(** Redeem-token nonces (redeem_token.rs). *)
+Definition NL : Z := PD_LAUNCHED_TOKEN_REDEEM_NONCE.
+Definition NA : Z := PD_ACCEPTED_TOKEN_REDEEM_NONCE.
+Definition MAXP : Z := PD_MAX_PERCENTAGE.
+
+(** ------------------------------------------------------------------ storage *)
+Record cfg := mkCfg {
+  c_start : Z;                      (* start_block *)
+  c_dn : Z; c_dl : Z; c_df : Z;     (* no_limit / linear_penalty / fixed_penalty phase durations *)
+  c_pmin : Z; c_pmax : Z;           (* penalty_min_percentage, penalty_max_percentage *)
+  c_pfix : Z;                       (* fixed_penalty_percentage *)
+  c_minp : Z;                       (* min_launched_token_price *)
+  c_prec : Z                        (* price_precision = 10 ^ launched_token_decimals *)
+}.
+
+Record pd := mkPd {
+  p_cfg : cfg;
+  p_block : Z;                      (* blockchain().get_block_nonce() *)
+  p_lb : Z; p_ab : Z;               (* launched_token_balance, accepted_token_balance (tracked) *)
+  p_rl : Z; p_ra : Z;               (* the contract account's real holdings of the two tokens *)
+  p_s1 : Z; p_s2 : Z;               (* redeem_token_total_circulating_supply(1), (2) *)
+  p_h1 : list (Z * Z);              (* redeem tokens nonce 1 held, by account id *)
+  p_h2 : list (Z * Z)               (* redeem tokens nonce 2 held, by account id *)
+}.
+
+(** Side-indexed access: [true] = the launched side (token 1, nonce 1), [false] = the accepted side. *)
+Definition bal_tr (s : pd) (l : bool) : Z := if l then p_lb s else p_ab s.
+Definition bal_re (s : pd) (l : bool) : Z := if l then p_rl s else p_ra s.
+Definition supply (s : pd) (l : bool) : Z := if l then p_s1 s else p_s2 s.
+Definition hold (s : pd) (l : bool) : list (Z * Z) := if l then p_h1 s else p_h2 s.
+
+Definition set_tr (s : pd) (l : bool) (v : Z) : pd :=
+  if l then mkPd (p_cfg s) (p_block s) v (p_ab s) (p_rl s) (p_ra s) (p_s1 s) (p_s2 s) (p_h1 s) (p_h2 s)
+  else mkPd (p_cfg s) (p_block s) (p_lb s) v (p_rl s) (p_ra s) (p_s1 s) (p_s2 s) (p_h1 s) (p_h2 s).
+Definition set_re (s : pd) (l : bool) (v : Z) : pd :=
+  if l then mkPd (p_cfg s) (p_block s) (p_lb s) (p_ab s) v (p_ra s) (p_s1 s) (p_s2 s) (p_h1 s) (p_h2 s)
+  else mkPd (p_cfg s) (p_block s) (p_lb s) (p_ab s) (p_rl s) v (p_s1 s) (p_s2 s) (p_h1 s) (p_h2 s).
+Definition set_supply (s : pd) (l : bool) (v : Z) : pd :=
+  if l then mkPd (p_cfg s) (p_block s) (p_lb s) (p_ab s) (p_rl s) (p_ra s) v (p_s2 s) (p_h1 s) (p_h2 s)
+  else mkPd (p_cfg s) (p_block s) (p_lb s) (p_ab s) (p_rl s) (p_ra s) (p_s1 s) v (p_h1 s) (p_h2 s).
+Definition set_hold (s : pd) (l : bool) (h : list (Z * Z)) : pd :=
+  if l then mkPd (p_cfg s) (p_block s) (p_lb s) (p_ab s) (p_rl s) (p_ra s) (p_s1 s) (p_s2 s) h (p_h2 s)
+  else mkPd (p_cfg s) (p_block s) (p_lb s) (p_ab s) (p_rl s) (p_ra s) (p_s1 s) (p_s2 s) (p_h1 s) h.
+Definition set_block (s : pd) (b : Z) : pd :=
+  mkPd (p_cfg s) b (p_lb s) (p_ab s) (p_rl s) (p_ra s) (p_s1 s) (p_s2 s) (p_h1 s) (p_h2 s).
+
+(** ------------------------------------------------------------------ lib.rs: init *)
+(** [cur] is the block nonce at deployment.  The first line is the unsigned decoding of the
+    arguments (u32 / u64 / BigUint), the rest are the [require!]s of [init] that concern the phase
+    schedule, the penalty range and the price precision. *)
+Definition init_pd (cur decimals minp start dn dl df pmin pmax pfix : Z) : result pd :=
+  check (0 <=? cur) && (0 <=? decimals) && (0 <=? minp) && (0 <=? start) && (0 <=? dn) && (0 <=? dl)
+        && (0 <=? df) && (0 <=? pmin) && (0 <=? pmax) && (0 <=? pfix) else EGuard;
+  check (decimals <=? PD_MAX_TOKEN_DECIMALS) else EGuard;
+  check (cur <? start) else EGuard;
+  check (pmin <=? pmax) else EGuard;
+  check (pmax <? MAXP) else EGuard;
+  check (pfix <? MAXP) else EGuard;
+  Ok (mkPd (mkCfg start dn dl df pmin pmax pfix minp (10 ^ decimals)) cur 0 0 0 0 0 0 [] []).
+
+(** ------------------------------------------------------------------ phase.rs *)
+Inductive phase :=
+| PhIdle
+| PhNoPenalty
+| PhLinear (pct : Z)      (* LinearIncreasingPenalty { penalty_percentage } *)
+| PhFixed (pct : Z)       (* OnlyWithdrawFixedPenalty { penalty_percentage } *)
+| PhRedeem.
+
+Definition phase_ix (ph : phase) : Z :=
+  match ph with
+  | PhIdle => PD_PHASE_Idle
+  | PhNoPenalty => PD_PHASE_NoPenalty
+  | PhLinear _ => PD_PHASE_LinearIncreasingPenalty
+  | PhFixed _ => PD_PHASE_OnlyWithdrawFixedPenalty
+  | PhRedeem => PD_PHASE_Redeem
+  end.
+
+(** Phase::get_penalty_percentage *)
+Definition penalty_of (ph : phase) : Z :=
+  match ph with PhLinear p => p | PhFixed p => p | _ => 0 end.
+
+Definition get_current_phase (c : cfg) (b : Z) : result phase :=
+  if b <? c_start c then Ok PhIdle else
+  let no_limit_end := c_start c + c_dn c in
+  if b <? no_limit_end then Ok PhNoPenalty else
+  let linear_start := no_limit_end in
+  let linear_end := linear_start + c_dl c in
+  if b <? linear_end then
+    do passed <- sub_chk b linear_start;
+    do diff <- sub_chk (c_pmax c) (c_pmin c);
+    let increase := if 1 <? c_dl c then diff * passed / (c_dl c - 1) else 0 in
+    Ok (PhLinear (c_pmin c + increase))
+  else
+  let fixed_start := linear_end in
+  let fixed_end := fixed_start + c_df c in
+  if b <? fixed_end then Ok (PhFixed (c_pfix c)) else Ok PhRedeem.
+
+Definition deposit_allowed (ph : phase) : bool :=
+  match ph with PhIdle | PhFixed _ | PhRedeem => false | _ => true end.
+Definition withdraw_allowed (ph : phase) : bool :=
+  match ph with PhIdle | PhRedeem => false | _ => true end.
+Definition redeem_allowed (ph : phase) : bool :=
+  match ph with PhRedeem => true | _ => false end.
+
+(** ------------------------------------------------------------------ lib.rs: calculate_price *)
+Definition calculate_price (s : pd) : result Z :=
+  check (0 <? p_lb s) else EGuard;
+  div_chk (p_ab s * c_prec (p_cfg s)) (p_lb s).
+
+Definition side_of_nonce (n : Z) : result bool :=
+  if n =? NL then Ok true else if n =? NA then Ok false else Err EGuard.
+
+Definition side_of_token (t : Z) : result bool :=
+  if t =? TOK_A then Ok false else if t =? TOK_L then Ok true else Err EGuard.
+
+Definition held (s : pd) (l : bool) (a : Z) : Z := aget (hold s l) a.
+
+(** ------------------------------------------------------------------ operations *)
+Inductive pdop :=
+| Tick (d : Z)                      (* the chain advances by d >= 0 blocks *)
+| Deposit (c tok amt : Z)           (* deposit, paying [amt] of token [tok] *)
+| Withdraw (c nonce amt : Z)        (* withdraw, paying [amt] redeem tokens of [nonce] (other nonce = wrong token) *)
+| Redeem (c nonce amt : Z)          (* redeem, paying [amt] redeem tokens of [nonce] *)
+| Xfer (src dst nonce amt : Z).     (* plain transfer of redeem tokens between accounts *)
+
+(** outputs: the amount of the returned payment *)
+Definition outs := list Z.
+
+Definition ep_tick (s : pd) (d : Z) : result (pd * outs) :=
+  check (0 <=? d) else EGuard;
+  Ok (set_block s (p_block s + d), []).
+
+Definition ep_deposit (s : pd) (c tok amt : Z) : result (pd * outs) :=
+  do ph <- get_current_phase (p_cfg s) (p_block s);
+  check deposit_allowed ph else EState;
+  check (0 <=? amt) else EGuard;
+  do l <- side_of_token tok;
+  let s1 := set_tr s l (bal_tr s l + amt) in                         (* increase_balance *)
+  do price <- calculate_price s1;
+  check (price =? 0) || (c_minp (p_cfg s) <=? price) || negb l else EGuard;
+  (* mint_and_send_redeem_token *)
+  let s2 := set_supply s1 l (supply s1 l + amt) in
+  let s3 := set_hold s2 l (aset (hold s2 l) c (held s2 l c + amt)) in
+  (* the payment itself stays in the contract account *)
+  let s4 := set_re s3 l (bal_re s3 l + amt) in
+  Ok (s4, [amt]).
+
+Definition ep_withdraw (s : pd) (c nonce amt : Z) : result (pd * outs) :=
+  do ph <- get_current_phase (p_cfg s) (p_block s);
+  check withdraw_allowed ph else EState;
+  check (0 <=? amt) else EGuard;
+  do l <- side_of_nonce nonce;
+  (* the caller pays with redeem tokens it owns ... *)
+  do hb <- sub_chk (held s l c) amt;
+  let s1 := set_hold s l (aset (hold s l) c hb) in
+  (* ... which burn_redeem_token burns, decreasing the circulating supply *)
+  do sup <- sub_chk (supply s1 l) amt;
+  let s2 := set_supply s1 l sup in
+  let pct := penalty_of ph in
+  let penalty := amt * pct / MAXP in
+  do w <- sub_chk amt penalty;
+  do nb <- sub_chk (bal_tr s2 l) w;                                  (* decrease_balance *)
+  let s3 := set_tr s2 l nb in
+  do price <- calculate_price s3;
+  check (c_minp (p_cfg s) <=? price) else EGuard;
+  do rb <- sub_chk (bal_re s3 l) w;                                  (* send().direct *)
+  Ok (set_re s3 l rb, [w]).
+
+Definition ep_redeem (s : pd) (c nonce amt : Z) : result (pd * outs) :=
+  do ph <- get_current_phase (p_cfg s) (p_block s);
+  check redeem_allowed ph else EState;
+  check (0 <=? amt) else EGuard;
+  do l <- side_of_nonce nonce;
+  do hb <- sub_chk (held s l c) amt;
+  (* compute_bought_tokens: the opposite pool, pro rata to the nonce's circulating supply *)
+  do q <- div_chk (bal_tr s (negb l) * amt) (supply s l);
+  (* burn_redeem_token_without_supply_decrease *)
+  let s1 := set_hold s l (aset (hold s l) c hb) in
+  if 0 <? q then
+    do rb <- sub_chk (bal_re s1 (negb l)) q;                         (* lock_tokens_and_forward *)
+    Ok (set_re s1 (negb l) rb, [q])
+  else Ok (s1, [q]).
+
+Definition ep_xfer (s : pd) (src dst nonce amt : Z) : result (pd * outs) :=
+  check (0 <=? amt) else EGuard;
+  do l <- side_of_nonce nonce;
+  do hb <- sub_chk (held s l src) amt;
+  let s1 := set_hold s l (aset (hold s l) src hb) in
+  Ok (set_hold s1 l (aset (hold s1 l) dst (held s1 l dst + amt)), []).
+
+Definition step (s : pd) (op : pdop) : result (pd * outs) :=
+  match op with
+  | Tick d => ep_tick s d
+  | Deposit c t a => ep_deposit s c t a
+  | Withdraw c n a => ep_withdraw s c n a
+  | Redeem c n a => ep_redeem s c n a
+  | Xfer a b n x => ep_xfer s a b n x
+  end.
+
+(** A failed transaction reverts: the runner keeps the old state. *)
+Definition step_total (s : pd) (op : pdop) : pd :=
+  match step s op with Ok (s', _) => s' | Err _ => s end.
+
+Definition run (s : pd) (ops : list pdop) : pd := fold_left step_total ops s.
+
+(** ------------------------------------------------------------------ views *)
+Definition view_phase (s : pd) : result phase := get_current_phase (p_cfg s) (p_block s).
+Definition view_price (s : pd) : result Z := calculate_price s.
+Definition view_supply (s : pd) (n : Z) : Z :=
+  if n =? NL then p_s1 s else if n =? NA then p_s2 s else 0.
+
+(** What redemptions of nonce [n] have paid out along a history (the returned payments). *)
+Fixpoint paid (s : pd) (ops : list pdop) (n : Z) : Z :=
+  match ops with
+  | [] => 0
+  | op :: t =>
+      match step s op with
+      | Ok (s', o) =>
+          (match op with Redeem _ n' _ => if n' =? n then hd 0 o else 0 | _ => 0 end) + paid s' t n
+      | Err _ => paid s t n
+      end
+  end.
